@@ -449,6 +449,50 @@ def check_post_end(obs, ro):
     return out
 
 
+def check_second_manager(obs, ro, cancelled=False):
+    """C14 for a second event manager behind the (possibly suspending) first one: nothing after its
+    on_pipeline_complete, start/complete pairing per node, and - for a run that ended normally - the same multiset
+    of node events the first manager saw."""
+    out = []
+    run = ro.tag
+    ev2 = [r for r in obs.trace if r['run'] == run and r['k'].startswith('cb2_')]
+    if not ev2:
+        return out
+    finished = ro.outcome in ('value', 'error')
+    comps = [i for i, r in enumerate(ev2) if r['k'] == 'cb2_pipeline_complete']
+    if finished and len(comps) != 1:
+        out.append(F(['C14'], 'pipeline_complete_count', n=len(comps), manager=2))
+    if comps and comps[0] != len(ev2) - 1:
+        later = [r['k'][4:] + ':' + str(r['node']) for r in ev2[comps[0] + 1:]][:5]
+        out.append(F(['C14', 'C13'], 'event_after_pipeline_complete', later=later, manager=2))
+    state = {}
+    for r in ev2:
+        n = r['node']
+        if r['k'] == 'cb2_node_start':
+            if state.get(n) == 'started':
+                out.append(F(['C14'], 'node_start_twice_without_complete', node=n, manager=2))
+            state[n] = 'started'
+        elif r['k'] == 'cb2_node_complete':
+            if state.get(n) not in ('started', 'retrying'):
+                out.append(F(['C14'], 'node_complete_without_start', node=n, manager=2))
+            state[n] = 'retrying' if r.get('err') is not None else 'idle'
+    if finished and not cancelled:
+        def bag(prefix):
+            c = {}
+            for r in obs.trace:
+                if r['run'] == run and r['k'] in (prefix + 'node_start', prefix + 'node_complete'):
+                    key = (r['k'][len(prefix):], r['node'], r.get('err') is not None)
+                    c[key] = c.get(key, 0) + 1
+            return c
+        # an event is delivered to the managers in list order, so the second one can only have seen what the first
+        # one saw (the first one may still be inside a callback when the run ends and its task is cancelled)
+        b1, b2 = bag('cb_'), bag('cb2_')
+        diff = sorted(k for k in b2 if b2[k] > b1.get(k, 0))[:5]
+        if diff:
+            out.append(F(['C14'], 'second_manager_saw_more_events', diff=[list(map(str, k)) for k in diff]))
+    return out
+
+
 def check_events(obs, ro, ref, prog, cancelled=False):
     """C14: lifecycle-event grammar for one run."""
     out = []
